@@ -2,6 +2,7 @@ CONSTANTS
   NKeys = 4
   MaxLen = 4
   MaxUnsortedLen = 3
+  EmptyKeys = 0
 SPECIFICATION Spec
 INVARIANTS MatchesRef LoopSane
 CHECK_DEADLOCK FALSE
